@@ -95,8 +95,10 @@ static void case_single(uint64_t idx, vh_rng *r)
         in = gplace(1, B, pc_in); out = gplace(2, B, pc_out);
         memcpy(in, x, B); memset(out, 0xEE, B);
     }
-    if (f == SB_MCT) { twp = gplace(3, 8, pick_pc(r)); memcpy(twp, tw, 8); }
+    if (f == SB_MCT) { twp = gplace(3, 8, pick_pc(r)); memcpy(twp, tw, 8); vh_gprotect(3, 1); }
+    if (!overlap_mode) vh_gprotect(1, 1);              /* the input (and tweak) pages are read-only during the call */
     sb_call(f, out, in, twp, ks);
+    vh_gprotect(1, 0); vh_gprotect(3, 0); VH_COUNT("calls_with_read_only_input_pages", 1);
     VH_COUNT("guarded_calls", 1); VH_COUNT("single_block_calls", 1);
     what[0] = 0;
     if (memcmp(out, ref, B)) snprintf(what, sizeof(what), "result differs from the aligned non-overlapping call");
@@ -132,6 +134,7 @@ static void case_keys(uint64_t idx, vh_rng *r)
     kp = gplace(0, L, pc); memcpy(kp, src, L);
     { int cfg[3] = {(int)f + 100, (int)L, pc}; if (vh_distinct(vh_hash(cfg, sizeof(cfg), VH_HASH_INIT))) VH_COUNT("distinct_placement_configurations", 1); }
     memset(o1, 0, 16); memset(o2, 0, 16);
+    vh_gprotect(0, 1); VH_COUNT("calls_with_read_only_input_pages", 1);
     vh_call_begin(kn[f]);
     if (f < 3) {
         Skinny128TweakedKey_t a, b;
@@ -155,6 +158,7 @@ static void case_keys(uint64_t idx, vh_rng *r)
         mantis_ecb_crypt(o1, blk, &a); mantis_ecb_crypt(o2, blk, &b);
     }
     vh_call_end();
+    vh_gprotect(0, 0);
     VH_COUNT("guarded_calls", 1); VH_COUNT("key_tweak_buffer_calls", 1);
     what[0] = 0;
     if (r1 != 1 || r2 != 1) snprintf(what, sizeof(what), "valid call rejected (%d,%d)", r1, r2);
@@ -261,15 +265,15 @@ static void case_ctr(uint64_t idx, vh_rng *r)
     c->ctr_init(&A); c->ctr_init(&Bh);
     if (c->ctr_backend(&A) != be) { viol("C09:backend-not-pinned", idx, "{}"); c->ctr_cleanup(&A); c->ctr_cleanup(&Bh); return; }
     /* A: guarded buffers; B: plain aligned buffers */
-    kp = gplace(0, klen, pick_pc(r)); memcpy(kp, key, klen);
+    kp = gplace(0, klen, pick_pc(r)); memcpy(kp, key, klen); vh_gprotect(0, 1);
     vh_call_begin("ctr_set_key"); ra &= tweaked ? c->ctr_set_tkey(&A, kp, klen) : c->ctr_set_key(&A, kp, klen, 7); vh_call_end();
     rb &= tweaked ? c->ctr_set_tkey(&Bh, key, klen) : c->ctr_set_key(&Bh, key, klen, 7);
     if (tweaked || c->id == CIPH_MANTIS) {
-        tp = gplace(3, tlen, pick_pc(r)); memcpy(tp, tweak, tlen);
+        tp = gplace(3, tlen, pick_pc(r)); memcpy(tp, tweak, tlen); vh_gprotect(3, 1);
         vh_call_begin("ctr_set_tweak"); ra &= c->ctr_set_tweak(&A, tp, tlen); vh_call_end();
         rb &= c->ctr_set_tweak(&Bh, tweak, tlen);
     }
-    cp = gplace(4, clen, pick_pc(r)); memcpy(cp, ctr, clen);
+    cp = gplace(4, clen, pick_pc(r)); memcpy(cp, ctr, clen); vh_gprotect(4, 1);
     vh_call_begin("ctr_set_counter"); ra &= c->ctr_set_counter(&A, cp, clen); vh_call_end();
     rb &= c->ctr_set_counter(&Bh, ctr, clen);
     /* consume a few bytes first so the call starts at an arbitrary keystream offset */
@@ -286,7 +290,9 @@ static void case_ctr(uint64_t idx, vh_rng *r)
     in = gplace(1, len, pc_in); memcpy(in, BIG[0], len);
     if (inplace) out = in; else { out = gplace(2, len, pc_out); memset(out, 0xEE, len); }
     }
+    if (!inplace && pc_out != -9) vh_gprotect(1, 1);          /* out of place: the input pages are read-only during the call */
     vh_call_begin("ctr_encrypt"); ra &= c->ctr_encrypt(out, in, len, &A); vh_call_end();
+    vh_gprotect(1, 0); vh_gprotect(0, 0); vh_gprotect(3, 0); vh_gprotect(4, 0); VH_COUNT("calls_with_read_only_input_pages", 1);
     rb &= c->ctr_encrypt(BIG[1], BIG[0], len, &Bh);
     VH_COUNT("guarded_calls", 4); VH_COUNT("ctr_calls", 1); if (inplace) VH_COUNT("ctr_in_place_calls", 1);
     what[0] = 0;
@@ -321,7 +327,7 @@ static void case_par(uint64_t idx, vh_rng *r)
     snprintf(key_, sizeof(key_), "C09:%s_parallel:%s", c->name, vh_backend_names[be]); vh_set_crash_key(key_);
     c->par_init(&A); c->par_init(&Bh);
     if (c->par_backend(&A) != be) { viol("C09:backend-not-pinned", idx, "{}"); c->par_cleanup(&A); c->par_cleanup(&Bh); return; }
-    kp = gplace(0, klen, pick_pc(r)); memcpy(kp, key, klen);
+    kp = gplace(0, klen, pick_pc(r)); memcpy(kp, key, klen); vh_gprotect(0, 1);
     vh_call_begin("parallel_set_key"); ra &= c->par_set_key(&A, kp, klen, 6, MANTIS_ENCRYPT); vh_call_end();
     rb &= c->par_set_key(&Bh, key, klen, 6, MANTIS_ENCRYPT);
     pc_in = pick_pc(r); pc_out = pick_pc(r);
@@ -336,9 +342,12 @@ static void case_par(uint64_t idx, vh_rng *r)
     }
     if (c->id == CIPH_MANTIS) { pc_tw = pick_pc(r); tw = gplace(3, len, pc_tw); memcpy(tw, BIG[2], len); }
     { int cfg[8] = {c->id + 300, be, (int)nb, dec, inplace, pc_in, inplace ? 0 : pc_out, pc_tw}; if (vh_distinct(vh_hash(cfg, sizeof(cfg), VH_HASH_INIT))) VH_COUNT("distinct_placement_configurations", 1); }
+    if (!inplace && pc_out != -9) vh_gprotect(1, 1);
+    if (tw) vh_gprotect(3, 1);
     vh_call_begin(dec ? "parallel_decrypt" : "parallel_encrypt");
     ra &= (dec ? c->par_decrypt : c->par_encrypt)(out, in, tw, len, &A);
     vh_call_end();
+    vh_gprotect(1, 0); vh_gprotect(3, 0); vh_gprotect(0, 0); VH_COUNT("calls_with_read_only_input_pages", 1);
     rb &= (dec ? c->par_decrypt : c->par_encrypt)(BIG[1], BIG[0], BIG[2], len, &Bh);
     VH_COUNT("guarded_calls", 2); VH_COUNT("parallel_calls", 1); if (inplace) VH_COUNT("parallel_in_place_calls", 1);
     what[0] = 0;
